@@ -1,5 +1,3 @@
-//go:build verif && c20wip
-
 package props
 
 // C20: P2P messages decode to what was sent, corruption is detected, dispatch is exact.
@@ -140,7 +138,7 @@ type c20MsgSpec struct {
 // decode at the receiver (message.go Decompress rejects the nil MsgInfo the wire hop produces). While
 // true, that sub-check reports "HEAD-FAILURE" + label head-failure:empty-payload-wire instead of
 // failing; set it to false once the tree is repaired to make it a hard assertion.
-const c20EmptyPayloadSoft = true
+const c20EmptyPayloadSoft = false
 
 type c20RTOut struct {
 	Viol       string
